@@ -303,11 +303,15 @@ def run(ctx):
     check_kills(ctx)
     # "a pool's total use does not exceed its capacity after a tick": the pool-level pass must be able to reach every container that holds
     # memory — a candidate list that leaves some out can run dry while the pool is still over its capacity (C11#4)
-    c11._run(Renumber(ctx, {4: 6}, drop=(1, 2, 3, 5, 6)))
+    c11._run(Renumber(ctx, {2: 6, 4: 6}, drop=(1, 3, 5, 6)))
     # "without overcommit a container that stays within its allocation is never killed": the pool-level pass can only trigger when the
     # allocations of a pool add up to more than its RAM, which the admission check rules out (C03#3: a batch is accepted only if it fits the FREE RAM)
     from . import c03
     c03.check_admission(Renumber(ctx, {3: 6}), 3)
+    # "reported usage": what a container reports is its segment's demand, and an explicit memory_gb of 0 is a demand of 0 — the optional field is
+    # tested with `is None` only (C14#3), never by truthiness
+    from . import c14
+    c14.check_none_vs_zero(Renumber(ctx, {3: 2}), 3)
     pool.ob_phases(ctx, 8)
     from . import c09
     c09.check_every_pool_ticked(ctx, 8)     # the limits are enforced by the killer that runs in the pool's tick: no pool may be left out
